@@ -25,7 +25,7 @@ def run(rep, kf, tier, seed):
     from props.common import run_bounded, discharge_parallel
     import contracts.enum_values as cev
     discharge_parallel(rep, kf, [cev.values_contract()], "C09", tier, seed)
-    run_bounded(rep, kf, "C09", ["param_conflicts", "model_properties", "enum_values", "name_collision"], tier)
+    run_bounded(rep, kf, "C09", ["param_conflicts", "model_properties", "enum_values", "name_collision", "tag_filing"], tier)
     rep.trusted.extend(TRUSTED)
     rep.assumptions.extend([
         "_check_parameters_for_conflicts: Endpoint.iter_all_parameters yields every parameter exactly once as (location, "
